@@ -187,7 +187,8 @@ fn take_snapshot(pi: usize, code: &'static str) -> Q1Snap {
     let world = w();
     let mut snap = Q1Snap { seq: sq, ..Default::default() };
     for r in world.ops.iter() {
-        if r.phase == pi && r.kind.has_body() && r.inv.is_some() && r.fin.is_none() {
+        // (operations accepted in an earlier phase that nobody has run yet, pool of zero threads, are still outstanding)
+        if r.phase <= pi && r.kind.has_body() && r.inv.is_some() && r.fin.is_none() {
             snap.unfinished.push(r.id);
             if r.start.is_some() {
                 snap.started_unfinished.push(r.id);
